@@ -34,7 +34,7 @@ META = {
     "level_note": "Trusts default.qubit's simulation of elementary gates (decided by C26) and numpy. Register sizes are bounded (<= 4 per "
                   "register quick, <= 5 thorough; <= 15 wires). Inputs outside the documented domain (x >= mod etc.) are not asserted. "
                   "PhaseAdder is exercised through the documented QFT - PhaseAdder - QFT^-1 sandwich, with mod <= 2^(n-1) when mod != 2^n.",
-    "shards": {"quick": 4, "thorough": 16},
+    "shards": {"quick": 3, "thorough": 16},
     "budget_s": {"quick": 100, "thorough": 480},
     "min_evals": {"quick": 1500, "thorough": 40000},
     "min_nontrivial": {"quick": 30, "thorough": 300},
@@ -227,6 +227,8 @@ def build_specs(qp, r, quick):
                     return "SignedOutMultiplier:negative-zero"          # 0 * negative gives -2^(k-1): the sign bit is set for a zero product
                 if all(a < 0 or b < 0 for a, b in sx):
                     return "SignedOutMultiplier:negative-operand"       # also covers magnitudes computed with the broken Incrementer fallback
+                if no < nx + ny:
+                    return "SignedOutMultiplier:small-output-register"  # (z + xy) mod 2^|z| is documented for any size, wrong when |z| < |x| + |y|
             return None
 
         return Spec("SignedOutMultiplier", lambda: qp.SignedOutMultiplier(xw, yw, ow, work_wires=ww, output_wires_zeroed=zeroed),
@@ -308,7 +310,7 @@ def build_specs(qp, r, quick):
 
         def cls_poly(path, why, wrong, allwrong):
             # the constant term is added by a PhaseAdder without `mod`: wrong as soon as mod != 2^n and the constant is non-zero
-            if why in ("value", "superposition", "dirty-work") and mod != 2**no and const % mod != 0:
+            if why in ("value", "superposition", "dirty-work") and (mod != 2**no or len(ww) > 0) and const % mod != 0:
                 return "OutPoly:constant-term-not-modular"
             return None
 
@@ -331,7 +333,7 @@ def build_specs(qp, r, quick):
             return {"t": v["t"] ^ int(flip)}
 
         def cls_cmp(path, why, wrong, allwrong):
-            if why.startswith("raise:") and (not geq) and value > 2**n:
+            if why.startswith("raise:") and value > 2**n:   # geq=True reaches the same code through the flip_geq rule
                 return "IntegerComparator:lt-value-beyond-register-raises"
             return None
 
@@ -662,6 +664,8 @@ def run(ctx):
     import pennylane as qp
 
     warnings.filterwarnings("ignore")
+    from pv.ref.c53_limit import limit_repeats
+    limit_repeats(ctx)
     exercise, adjoint_and = make_engine(ctx, qp)
     rng = ctx.rng
     builders = build_specs(qp, rng, ctx.quick)
@@ -694,7 +698,7 @@ def run(ctx):
             return {"t": v["t"] ^ int((v["c"] >= value) if geq else (v["c"] < value))}
 
         def cls_cmp(path, why, wrong, allwrong, value=value, geq=geq, n=n):
-            if why.startswith("raise:") and (not geq) and value > 2**n:
+            if why.startswith("raise:") and value > 2**n:   # geq=True reaches the same code through the flip_geq rule
                 return "IntegerComparator:lt-value-beyond-register-raises"
             return None
 
